@@ -109,6 +109,13 @@ def _dataset(case, rng, variant):
         y[idx[1]] = y[idx[0]]
     if variant % 5 == 3 and n_lab >= 2:       # all labels equal
         y[idx] = y[idx[0]]
+    # labels with a large common offset (time stamps, pressures): variance formulas of the E[y^2] - E[y]^2 kind
+    # cancel catastrophically there; float32 labels already at 1e5
+    if variant % 7 == 5 and n_lab >= 2:
+        y[idx] = 1e9 + rng.integers(-3, 4, size=n_lab)
+    if variant % 7 == 6 and n_lab >= 2:
+        y = y.astype(np.float32)
+        y[idx] = (101325 + rng.normal(size=n_lab)).astype(np.float32)
     w = None
     # (the wrapper mirrors the signature of the wrapped fit: GaussianProcessRegressor takes no sample_weight)
     if variant % 3 == 1 and case["kind"] != "NormalGP":
